@@ -290,3 +290,10 @@ package ratelimit
 //@   ensures rate_error_is_429: istype(err, "*MaxRateError") ==> calls(w.WriteHeader) == 1 && callarg(w.WriteHeader, 0, 0) == 429 && calls(w.Write) == 1 && before(w.WriteHeader, w.Write)
 //@   ensures other_errors_delegated: !istype(err, "*MaxRateError") ==> calls(w.WriteHeader) == 0 && calls(DefaultHandler.ServeHTTP) == 1
 //@   at_call w.WriteHeader advertised_wait: header(callres(w.Header, 1, 0), "X-Retry-In") == durstring(asref(payload(err), "*MaxRateError").Delay)
+
+// Wrap rebinds the wrapped handler and nothing else: the buckets survive it.
+//@ func (*TokenLimiter).Wrap
+//@   props C03 C14 C20
+//@   requires tl != nil
+//@   modifies tl.next
+//@   ensures rebound: tl.next == next
